@@ -304,6 +304,53 @@ def r1(ctx):
     ctx.ob(R, "pre-dispatch bookkeeping of the entry points checked for partial dict operations", True, ADDONS,
            f"{len(pre)} functions, {len(dict_attrs)} dict tables, {n_partial} pop/del sites without default")
 
+    # -- helpers the entry points call bare (outside any try, before dispatch) must not raise on that call shape:
+    #    an explicit `raise` in them is either contained by a handler inside the helper, or depends on a
+    #    parameter that is falsy for every bare call from an entry point (explicit constant or the default)
+    chain = {cah.qual, cmh.qual, tch.qual}
+    bare: Dict[str, List[Tuple[FuncInfo, ast.Call]]] = {}
+    for f in entries:
+        for c in calls(f.node, into_defs=False):
+            if isinstance(c.func, ast.Attribute) and ap(c.func.value) == "cls" and not try_contexts(c, f.node):
+                g = am.methods.get(c.func.attr)
+                if g is not None and g.qual not in chain and g not in entries and g.name not in dispatchers:
+                    bare.setdefault(g.name, []).append((f, c))
+    n_raise = 0
+    for gname, sites in sorted(bare.items()):
+        g = am.methods[gname]
+        gparams = [a.arg for a in g.node.args.args][1:]
+        defaults = dict(zip(reversed(gparams), reversed(g.node.args.defaults)))
+        for a, d in zip(g.node.args.kwonlyargs, g.node.args.kw_defaults):
+            gparams.append(a.arg)
+            if d is not None:
+                defaults[a.arg] = d
+        for x in [x for x in walk(g.node) if isinstance(x, ast.Raise)]:
+            contained = any(tc.section == "body" and any(
+                (handler_catches_all(h) and handler_reraises(h) != "always") for h in tc.node.handlers)
+                for tc in try_contexts(x, g.node))
+            if contained:
+                continue
+            n_raise += 1
+            ok, why = False, "the raise is unconditional on the call shape"
+            for e, pol in facts(x, g.node):
+                pn = ap(e)
+                if pn in gparams and pol:
+                    vals = []
+                    for f, c in sites:
+                        idx_ = gparams.index(pn)
+                        arg = c.args[idx_] if idx_ < len(c.args) else next((k.value for k in c.keywords if k.arg == pn), defaults.get(pn))
+                        vals.append(arg)
+                    if vals and all(isinstance(v_, ast.Constant) and not v_.value for v_ in vals):
+                        ok = True
+                    else:
+                        why = (f"depends on parameter `{pn}`, which is {[norm(v_) if v_ is not None else 'required' for v_ in vals]} "
+                               f"for the bare calls from {sorted({f.qual for f, _ in sites})}")
+            ctx.ob(R, f"{g.qual}: `{norm(x)}` cannot escape a bare call from a handle_* entry point", ok, ctx.w(g, x),
+                   "" if ok else f"{why}: the exception leaves the entry point before any hook ran; the message is not "
+                   f"logged or forwarded")
+    ctx.ob(R, "helpers called bare by the entry points checked for escaping raises", True, ADDONS,
+           f"{sorted(bare)}: {n_raise} uncontained raise statement(s)")
+
     # -- no other place obtains or calls a hook
     n_sites = 0
     idx = call_index(repo)
